@@ -146,6 +146,10 @@ structure ClassCfg where
   soerrs : List Errno
   peers : List Bool
   unix : Bool := false
+  /-- dials with a local address (`DialTCP` / `DialUnix`): what `netFD.dial` finds wrong before connect(2) -/
+  bindErr : Errno := 0         -- bind(2) fails with this errno
+  addrErr : Bool := false      -- laddr/raddr.sockaddr(family) fails
+  auto : Bool := true          -- laddr == nil || laddr.Port == 0 (the retry loop of dialTCP is armed)
 
 def classCfg : String → Option ClassCfg
   | "accept" => some { e0s := [EINPROGRESS, 0], evsets := [[.writable], [.writable, .writable]], soerrs := [0, EINPROGRESS], peers := [true, false] }
@@ -154,6 +158,16 @@ def classCfg : String → Option ClassCfg
   | "backlog" => some { e0s := [EINPROGRESS], evsets := [[]], soerrs := [0], peers := [true] }
   | "reset" => some { e0s := [EINPROGRESS, 0], evsets := [[.writable], [.hup], [.writable, .hup], [.hup, .writable]],
                       soerrs := [0, 104], peers := [true, false] }
+  -- a local address is given (the harness dials through DialTCP / DialUnix): free; port taken (EADDRINUSE, an
+  -- explicit port disarms the retry loop); not on this host (EADDRNOTAVAIL with port 0: retried twice, same result);
+  -- network says IPv4, an address is IPv6 (address conversion fails)
+  | "laddr-ok" => some { e0s := [EINPROGRESS, 0], evsets := [[.writable], [.writable, .writable]], soerrs := [0, EINPROGRESS], peers := [true, false] }
+  | "bind-inuse" => some { e0s := [EINPROGRESS], evsets := [[]], soerrs := [0], peers := [true], bindErr := 98, auto := false }
+  | "bind-notlocal" => some { e0s := [EINPROGRESS], evsets := [[]], soerrs := [0], peers := [true], bindErr := EADDRNOTAVAIL }
+  | "family-raddr" => some { e0s := [EINPROGRESS], evsets := [[]], soerrs := [0], peers := [true], addrErr := true }
+  | "family-laddr" => some { e0s := [EINPROGRESS], evsets := [[]], soerrs := [0], peers := [true], addrErr := true }
+  | "unix-laddr-ok" => some { e0s := [0], evsets := [[]], soerrs := [0], peers := [true], unix := true }
+  | "unix-bind-exists" => some { e0s := [0], evsets := [[]], soerrs := [0], peers := [true], unix := true, bindErr := 98 }
   | "unix-ok" => some { e0s := [0], evsets := [[]], soerrs := [0], peers := [true], unix := true }
   | "unix-missing" => some { e0s := [2], evsets := [[]], soerrs := [0], peers := [true], unix := true }
   | "unix-refuse" => some { e0s := [ECONNREFUSED], evsets := [[]], soerrs := [0], peers := [true], unix := true }
@@ -182,8 +196,8 @@ def admitted (cfg : Cfg) (c : ClassCfg) (ctx : Option CtxErr) : List String :=
     | none => [none]
     | some k => [none, some k]
   let run (e0 : Errno) (ca : Option CtxErr) (wakes : List Wake) : DRes :=
-    let a : Attempt := { fd := 5, e0, ctxAt := ca, wakes }
-    if c.unix then (dialUnix {} a 0).2 else (dialTCP {} { att := fun _ => a }).2.1
+    let a : Attempt := { fd := 5, e0, ctxAt := ca, wakes, bindErr := c.bindErr, addrErr := c.addrErr }
+    if c.unix then (dialUnix {} a 0).2 else (dialTCP {} { auto := c.auto, att := fun _ => a }).2.1
   let outs := c.e0s.flatMap fun e0 => ctxAts.flatMap fun ca =>
     match run e0 ca [] with
     | .ret conn err => [showOutcome cfg conn err]      -- returns without waiting
